@@ -250,7 +250,8 @@ func (s *Server) Dial(ctx context.Context, addr string) (net.Conn, error) {
 		subs: map[string]struct{}{}, psubs: map[string]struct{}{}, ssubs: map[string]struct{}{}}
 	c.outCond = sync.NewCond(&c.outMu)
 	c.rng = rand.New(rand.NewSource(s.opts.Seed*1000003 + c.ID))
-	c.authed = len(s.opts.Users) == 0
+	_, defaultHasPass := s.opts.Users["default"]
+	c.authed = !defaultHasPass // no password for "default" (Redis: "user default on nopass"): a session starts authenticated as default, even when other ACL users exist
 	c.user = "default"
 	s.conns[c.ID] = c
 	s.logEvent(Event{Node: addr, Conn: c.ID, Kind: "accept"})
